@@ -185,7 +185,7 @@ func (e *Engine) Stub(orig, repl *ssa.Function) { e.stubs[orig] = repl }
 
 var defaultOpaque = []string{
 	"reflect", "internal/reflectlite", "fmt", "encoding/json", "testing", "google.golang.org/protobuf/",
-	"net/http", "crypto/tls", "github.com/quic-go/", "gopkg.in/yaml.v2",
+	"crypto/tls", "github.com/quic-go/", "gopkg.in/yaml.v2",
 }
 
 var opaqueExceptions = []string{"net/netip", "net/url", "internal/bytealg", "internal/stringslite", "internal/byteorder", "internal/itoa", "internal/godebug", "crypto/subtle"}
